@@ -32,11 +32,13 @@ Proof.
     (wf_casesb cases && (fix go (cs : list scase) : bool := match cs with [] => true | c :: r => swfl_local (sc_body c) && go r end) cases).
   f_equal; try (induction cases as [|c r IH]; [reflexivity|]; cbn; rewrite IH, swfl_local_eq; reflexivity).
 Qed.
-Lemma ifok1b_switch_eq tg op ol cases : ifok1b (SSwitch tg op ol cases) = forallb (fun c : scase => ifokb (sc_body c)) cases.
+Lemma ifok1b_switch_eq tg op ol cases : ifok1b (SSwitch tg op ol cases) =
+  negb (match cases with [] => true | _ => false end) && forallb (fun c : scase => ifokb (sc_body c)) cases.
 Proof.
   change (ifok1b (SSwitch tg op ol cases)) with
-      ((fix go (cs : list scase) : bool := match cs with [] => true | c :: r => ifok_local (sc_body c) && go r end) cases).
-  first [reflexivity | induction cases as [|c r IH]; [reflexivity|cbn; rewrite IH, ifok_local_eq; reflexivity]].
+      (negb (match cases with [] => true | _ => false end) &&
+       (fix go (cs : list scase) : bool := match cs with [] => true | c :: r => ifok_local (sc_body c) && go r end) cases).
+  f_equal; try reflexivity; try (induction cases as [|c r IH]; [reflexivity|cbn; rewrite IH, ifok_local_eq; reflexivity]).
 Qed.
 
 Definition rebody (g : list stmt -> list stmt) (c : scase) : scase := (fst (fst (fst c)), snd (fst (fst c)), snd (fst c), g (snd c)).
@@ -98,6 +100,7 @@ Proof.
       induction HC as [|[[[d v] l] b] r (H1 & H2 & H3) _ (I1 & I2 & I3 & I4)]; [repeat split|]. unfold tags_cases, sc_body in *. cbn in *. rewrite H1, H2, H3, I1, I3, I4. repeat split. }
     destruct T as (T1 & T2 & T3 & T4).
     rewrite !tags1_switch, !swf1b_switch_eq, !ifok1b_switch_eq, T1, T2, T3, T4. repeat split.
+    f_equal. destruct cases; reflexivity.
 Qed.
 
 Lemma src_ok_pstmt ss : src_ok ss -> src_ok (map (pstmt ps) ss).
